@@ -1,6 +1,8 @@
 """C12 - AMEn solve: claimed only for the operator-consistency, interface-typing and validation clauses (residual bound: not applicable)."""
 from __future__ import annotations
 
+import ast
+
 from .. import rules
 from ..defattr import rule_defattr
 from ..effects import Effects
@@ -183,6 +185,37 @@ def rule_residual_defs(model: Model):
     return obs
 
 
+_RETRY_FIXTURE = '''
+def p(Op, rhs, x0):
+    r = rhs - Op.matvec(x0)
+    s = tn.rand(r.shape)
+    while tn.dot(r.squeeze(), s.squeeze()) == 0:
+        s = tn.rand(r.shape)
+    return s
+
+def q(Op, rhs, x0):
+    r = rhs - Op.matvec(x0)
+    if not tn.linalg.norm(r) > 0:
+        return x0
+    s = tn.rand(r.shape)
+    while tn.dot(r.squeeze(), s.squeeze()) == 0:
+        s = tn.rand(r.shape)
+    return s
+'''
+
+
+def _retry_loop_fixture(model: Model):
+    """the rule must flag the unguarded search and accept its guarded twin (a tree that seeds the shadow residual differently has no such loop)"""
+    import dataclasses
+    from ..normguard import rule_retry_loop
+    tree = ast.parse(_RETRY_FIXTURE)
+    host = model.func("_iterative_solvers.gmres")
+    res = {fn.name: rule_retry_loop(model, "fixture." + fn.name, func=dataclasses.replace(host, node=fn)) for fn in tree.body}
+    ok = any(o.status == VIOLATED for o in res["p"]) and res["q"] and all(o.status == OK for o in res["q"])
+    return [Ob("RETRY-LOOP", "fixture:RETRY-LOOP:positive-example", OK if ok else ERROR, "ttsa/props/c12.py", "_RETRY_FIXTURE",
+               "the built-in positive example is flagged and its guarded twin is not" if ok else "the RETRY-LOOP rule no longer recognises its positive example")]
+
+
 def check(model: Model, tier: str):
     from ..e5 import obligations as e5ob
     from ..e5.slicetype import type_body
@@ -216,6 +249,12 @@ def check(model: Model, tier: str):
     from ..normguard import rule_residual_gauge
     obs += rule_residual_gauge(model, "solvers._amen_solve_python")
     obs += rule_arnoldi_seed(model)
+    # the local solvers return: a search for a shadow residual must not depend on the residual being non-zero
+    from ..normguard import rule_retry_loop
+    for fo in sorted(model.functions.values(), key=lambda x: x.short):
+        if fo.short.split(".")[0] in ("_iterative_solvers", "solvers"):
+            obs += rule_retry_loop(model, fo.short)
+    obs += _retry_loop_fixture(model)
     fs = [model.func(a) for a in ANCHORS]
     exc = {
            ("_iterative_solvers.gmres", "sig:for:range(_)"): "loop over range(max_iterations) with max_iterations = local_iterations + 1 >= 1",
